@@ -25,6 +25,14 @@ def fc(x=None, y=None):
   return Rec('fc', [('x', x), ('y', y)], (), {})
 
 
+def fd(x=None, y=None, q=1):
+  """Parameters tagged through their annotations (the constructor adds those tags)."""
+  return Rec('fd', [('x', x), ('y', y), ('q', q)], (), {})
+
+
+import typing as _typing
+fd.__annotations__ = {'x': _typing.Annotated[int, targets.T1], 'q': _typing.Annotated[int, targets.T0, targets.T2]}
+
 import os as _os
 import sys as _sys
 
@@ -34,8 +42,8 @@ if _TOP not in _sys.path:
 import layers as top_layers                      # a single-file top-level module ...
 from harness.c13lib import layers as pkg_layers  # ... and a package module with the same last name
 
-FNS = [fa, fb, fc, pkg_layers.Dense, top_layers.Dense]
-PARAMS = {fa: ['p', 'q', 'r', 'k'], fb: ['p', 'q', 's', 'extra1', 'extra2'], fc: ['x', 'y'],
+FNS = [fa, fb, fc, fd, pkg_layers.Dense, top_layers.Dense]
+PARAMS = {fa: ['p', 'q', 'r', 'k'], fb: ['p', 'q', 's', 'extra1', 'extra2'], fc: ['x', 'y'], fd: ['x', 'y', 'q'],
           pkg_layers.Dense: ['units', 'inner'], top_layers.Dense: ['units', 'inner']}
 
 
